@@ -186,6 +186,91 @@ def judge_quantile(s, q, ret):
 
 
 # ------------------------------------------------------------------------------------------------
+# direct calls of rex.utils.mixture_distribution_quantiles(dist, probs VECTOR, 1000, grid_min, grid_max)
+# ------------------------------------------------------------------------------------------------
+GRID_N = 1000
+# levels beyond the CDF range of a grid that ends at the 0.1% / 99.9% component points (that range is at most
+# [1e-5, 1 - 1e-5] on this lattice: smallest weight 0.01 x tail 0.001). NOT 0.99999: that value ties exactly, in float32,
+# with the CDF at the grid end of the members whose top component has weight 0.01, and rex answers such a tie with
+# grid_min (the span check uses <=, the selection a strict >); a measure-zero tie is not what this family is about.
+Q_BELOW, Q_ABOVE = 1e-6, 0.999999
+
+
+def mix_ppf(q, w, mu, sigma):
+    """float64 reference quantile of a mixture by bisection on mix_cdf (200 halvings of a bracket 40 sigma wide)."""
+    lo = min(m - 40 * s for m, s in zip(mu, sigma))
+    hi = max(m + 40 * s for m, s in zip(mu, sigma))
+    for _ in range(200):
+        mid = 0.5 * (lo + hi)
+        if mix_cdf(mid, w, mu, sigma) < q:
+            lo = mid
+        else:
+            hi = mid
+    return 0.5 * (lo + hi)
+
+
+def mixq_grids(s):
+    """The grids handed to the function: the one StaticDist.quantile builds (component 0.1% / 99.9% points pushed out by
+    10%), the same without the push (ends exactly at the component points), and one that certainly does not span the
+    level grid (from the reference 4% point to the reference 96% point)."""
+    z = 3.090232306167813
+    lo = min(m - z * sg for m, sg in zip(s["mu"], s["sigma"]))
+    hi = max(m + z * sg for m, sg in zip(s["mu"], s["sigma"]))
+    return {
+        "as-rex": (lo - 0.1 * abs(lo), hi + 0.1 * abs(hi)),
+        "component-ends": (lo, hi),
+        "truncated-4-96": (mix_ppf(0.04, s["w"], s["mu"], s["sigma"]), mix_ppf(0.96, s["w"], s["mu"], s["sigma"])),
+    }
+
+
+def mixq_level_vectors():
+    lv = quantile_levels()
+    inner = [q for q in lv if 0.0625 <= q <= 0.9375]
+    return {
+        "41": lv,
+        "41+above": lv + [Q_ABOVE],
+        "below+41": [Q_BELOW] + lv,
+        "below+41+above": [Q_BELOW] + lv + [Q_ABOVE],
+        "mid+above": [0.5, Q_ABOVE],
+        "below+mid": [Q_BELOW, 0.5],
+        "inner": inner,  # covered by every grid, also by the truncated one
+    }
+
+
+def judge_mixq(s, grid, levels, ret):
+    """`ret` = what one call returned for the level vector (None if it raised RuntimeError, which is the documented answer
+    to a grid that does not span the requested levels). Otherwise every entry must be within one grid cell of the float64
+    quantile (judged in probability space, as judge_quantile does; the allowance shrinks in the far tails so that it stays
+    below the level itself) and the vector must be non-decreasing in q. Returns a list of (signature, reason)."""
+    if ret is None:
+        return []
+    bad = []
+    ret = [float(v) for v in np.asarray(ret, dtype=np.float64).ravel()]
+    if len(ret) != len(levels):
+        return [("mixq:shape", f"{len(levels)} levels, {len(ret)} quantiles returned")]
+    gmin, gmax = grid
+    cell = (gmax - gmin) / (GRID_N - 1)
+    d = 2 * ulp32(max(abs(gmin), abs(gmax)))
+    for q, r in zip(levels, ret):
+        eps = min(1e-5, max(0.2 * min(q, 1.0 - q), 5e-7))  # 5e-7: a few float32 ulps of a CDF value near 1
+        if not math.isfinite(r):
+            bad.append(("mixq:cdf-mismatch", f"level {q}: {r}"))
+            continue
+        up = mix_cdf(r + d, s["w"], s["mu"], s["sigma"])
+        dn = mix_cdf(r - cell - d, s["w"], s["mu"], s["sigma"])
+        if up < q - eps or dn > q + eps:
+            bad.append(("mixq:cdf-mismatch", f"level {q}: returned {r!r}, float64 quantile {mix_ppf(q, s['w'], s['mu'], s['sigma'])!r}, grid cell {cell:.3g} "
+                                              f"(cdf(ret) = {up!r}, cdf(ret - cell) = {dn!r}); the grid [{gmin!r}, {gmax!r}] spans cdf "
+                                              f"[{mix_cdf(gmin, s['w'], s['mu'], s['sigma']):.3g}, {mix_cdf(gmax, s['w'], s['mu'], s['sigma']):.6g}] and the call did not raise"))
+    order = sorted(range(len(levels)), key=lambda i: levels[i])
+    for a, b in zip(order, order[1:]):
+        if ret[b] < ret[a]:
+            bad.append(("mixq:not-monotone", f"quantile({levels[a]}) = {ret[a]!r} > quantile({levels[b]}) = {ret[b]!r}"))
+            break
+    return bad
+
+
+# ------------------------------------------------------------------------------------------------
 # reference model of the sampling state machine
 # ------------------------------------------------------------------------------------------------
 class RefDist:
